@@ -40,6 +40,23 @@ def enc_pairs(ps):
     return out
 
 
+def enc_graph(G):
+    """simple or directed graph literal: n m u1 v1 ..."""
+    es = list(G.edges())
+    return [G.number_of_vertices()] + enc_pairs(es)
+
+
+def enc_bipartite(B):
+    es = list(B.edges())
+    return [B.left_order(), B.right_order()] + enc_pairs(es)
+
+
+def fmt_formula(F):
+    """canonical text of a CNF or OPB formula object (same as the driver's fmtFormula)"""
+    from cnfgen.formula.baseopb import BaseOPB
+    return fmt_opb(F) if isinstance(F, BaseOPB) else fmt_cnf(F)
+
+
 def req(op, *parts):
     toks = [op]
     for p in parts:
